@@ -56,6 +56,16 @@ CHECKS = {
    note="Trusted: TLC, Hasher.tla. Costs above a per-hasher cheap bound are compared on attributes only; hard maxima >= 2^31-1 are treated as absent. "
         "ident/variant/truncate_error/scrypt block_size keywords are not in this model yet.",
    technique="TLA+ spec (Hasher.tla) model-checked with TLC + spec-to-implementation behaviour replay on derivation trees"),
+ "C04": dict(cat=MC, design="DESIGN.md §3 C04, App. B.2",
+   text="Context.tla defines the policy (scheme order, default, deprecated list/auto, per-category inheritance, per-scheme rounds options "
+        "resolved through Hasher!UsingRounds with relaxed clamping) and every decision (identify = first claimant, new hash from the category "
+        "default inside its window, needs_update, verify, verify_and_update shapes); TLC checks first-claimant, default-liveness, fixed point of "
+        "rehashing and fresh-needs-no-update exhaustively over small configuration spaces; random configurations (valid and invalid) with 9-step "
+        "operation sequences are replayed on real CryptContext objects over six real schemes, comparing refusal class, per-category defaults and "
+        "customised handler windows, and every answer incl. the parsed scheme/cost of new and rehashed hashes with the random source forced.",
+   note="Trusted: TLC, Context.tla/Hasher.tla. Real schemes are pre-customised to cheap default costs; scheme self-flags other than bsdi's even cost "
+        "and the deprecated 'all' pseudo-scheme are not modelled. Two categories (default + 'admin').",
+   technique="TLA+ spec (Context.tla) model-checked with TLC + spec-to-implementation behaviour replay on real CryptContext objects"),
 }
 PENDING = {}
 props = [json.loads(l) for l in open(os.path.join(HERE, "properties.jsonl"))]
